@@ -131,6 +131,9 @@ class DictOracle:
             return "[" + ",".join(str(f) for f in sorted({x[0] for x in e})) + "]"
         if k == "lsm":
             return "{" + ",".join(str(m) for m in sorted(v[0] for x, v in e.items() if x[0] == op[1])) + "}"
+        if k == "lsml":
+            live = [v[0] for x, v in e.items() if x[0] == op[1]]
+            return "n=%d subset=1" % min(op[2], len(live))
         if k == "wmeta":
             md[(op[1], op[2], op[3])] = op[4]
             return "ok"
@@ -225,6 +228,8 @@ class World:
             lines.append("%s %d" % (k, op[1]))
         elif k in ("fall", "lsf"):
             lines.append(k)
+        elif k == "lsml":
+            pass            # listings with a limit are outside the model's op language (they never touch the cache)
         elif k == "wmeta":
             lines.append("wmeta %d %d %d %d" % tuple(op[1:5]))
         elif k == "rmeta":
@@ -276,6 +281,10 @@ class World:
             if k == "lsm":
                 ms = sorted(self.mid_of(m) for m in be.list_mementos(self.refs[op[1]]))
                 return "{" + ",".join(map(str, ms)) + "}"
+            if k == "lsml":
+                got = [self.mid_of(m) for m in be.list_mementos(self.refs[op[1]], limit=op[2])]
+                live = {self.mid_of(m) for m in be.list_mementos(self.refs[op[1]])}
+                return "n=%d subset=%d" % (len(got), int(set(got) <= live and len(set(got)) == len(got)))
             if k == "wmeta":
                 be.write_metadata(self.frh(op[1], op[2]), MKEYS[op[3]], b"meta%d" % op[4])
                 return "ok"
@@ -365,8 +374,9 @@ def run_history(cfg, ops, use_model=True, root=None, scan=False, hooks=None):
             real = w.apply(op)
             want = oracle.step(op)
             mout = None
+            mlines = w.model_lines(op) if model else []
             if model:
-                for ln in w.model_lines(op):
+                for ln in mlines:
                     mout = model.send(ln)
             rec = dict(i=i, op=op, real=real, spec=want, model=mout)
             if scan and cfg["kind"] != "mem":
@@ -396,7 +406,7 @@ def run_history(cfg, ops, use_model=True, root=None, scan=False, hooks=None):
             res["transcript"].append(rec)
             if real != want:
                 res["oracle"].append(dict(step=i, op=op, clause=clause_of(op, real, want), real=real, expected=want))
-            if model and mout != real:
+            if model and mlines and mout != real:
                 res["mismatch"].append(dict(step=i, op=op, stream="api", real=real, model=mout))
             if res["oracle"] or res["mismatch"] or res["integrity"]:
                 break
@@ -417,7 +427,7 @@ def clause_of(op, real, want):
         return "read-returns-last-written"
     if k in ("getm", "ismem"):
         return "lookup-answers-as-dictionary"
-    if k in ("lsf", "lsm"):
+    if k in ("lsf", "lsm", "lsml"):
         return "listing-enumerates-live-entries"
     if k == "rmeta":
         return "metadata-read-returns-last-written"
@@ -431,6 +441,7 @@ CONFIGS = [
     dict(kind="fs", separate=False, budget=600),
     dict(kind="fs", separate=True, budget=2500),
     dict(kind="fs", separate=False, budget=200000),
+    dict(kind="fs", separate=False, budget=8),        # nothing fits, not even a memento-only entry: every read goes past the cache
 ]
 
 
@@ -469,8 +480,10 @@ def gen_ops(rng, length, fns=None, override_rate=0.3, nvals=40):
             ops.append(["fall"])
         elif r < 0.86:
             ops.append(["lsf"])
-        elif r < 0.91:
+        elif r < 0.89:
             ops.append(["lsm", fn])
+        elif r < 0.91:
+            ops.append(["lsml", fn, rng.randint(1, 3)])
         elif r < 0.95:
             ops.append(["wmeta", fn, arg, rng.choice(list(MKEYS)), rng.randrange(1, 50)])
         elif r < 0.98:
